@@ -159,7 +159,13 @@ def run(prog, ctx):
             if lit is not None and lit.node.k == "CallExpr" and lit.node.j.get("callee") == "strcmp" and lit.pol and \
                     any(a.string_value() == MARKER for a in lit.node.call_args()) and "%s.group" % ent in [render(a) for a in lit.node.call_args()]:
                 named_edges.append((b, ii, s))
-        if not changed_edges or not named_edges:
+        has_first = any(cfg.edge_lit(b, ii).atom == i for (b, ii, s) in changed_edges)
+        has_prev = any(cfg.edge_lit(b, ii).node.k == "CallExpr" for (b, ii, s) in changed_edges)
+        if changed_edges and not (has_first and has_prev):
+            ctx.fail("W2", "a header precedes the first key of every run of a named section", hc.where,
+                     "the header is written %s" % ("only for the first entry: later sections get no header and their keys are read back as members of the first"
+                                                   if not has_prev else "without the `first entry` case"), key="header-cond")
+        elif not changed_edges or not named_edges:
             ctx.fail("W2", "a header precedes the first key of every run of a named section", hc.where,
                      "the writer does not test %s" % ("whether the section changed" if not changed_edges else "for the group-less marker"), key="header-cond")
         else:
